@@ -24,6 +24,7 @@
 
 #include <algorithm>
 #include <memory>
+#include <mutex>
 #include <sched.h>
 #include <thread>
 #include <unistd.h>
@@ -33,11 +34,14 @@ using namespace tulz;
 namespace {
 
 using Key = std::vector<std::string>;
-const std::vector<std::string> kNames = {"a", "b"};
+const std::vector<std::string> kNames = {"a", "b", "c", "d", "e", "f"};
+size_t gNameCount = 2;   // per history: 2 names (operations collide on few keys) or 6 (the tree is restructured all the time)
+int gMaxDepth = 2;
 constexpr uint64_t kInf = ~0ULL;
 
 struct Cover {
     uint64_t histories = 0, ops = 0, notifies = 0, notifiesWithCallbacks = 0, callbacks = 0, subscribes = 0, unsubscribes = 0, shrinks = 0, existsCalls = 0, depthCalls = 0;
+    uint64_t fastCases = 0, fastOps = 0;
     uint64_t linHistories = 0, linOps = 0, linNodes = 0, linInconclusive = 0, linWithOverlap = 0;
     uint64_t writesOverlappingNotify = 0, snapshotsJudged = 0, snapshotsWithConcurrentWrite = 0, missedJudged = 0, maxThreads = 0, nontrivialCases = 0;
     std::vector<uint64_t> fps;
@@ -126,7 +130,7 @@ void judge(std::vector<std::vector<Op>> &logs) {
             if (n.kind == ODepth) {
                 size_t need = 1;
                 for (auto &op : gObs) { ObsRec &o = *op; if (o.subRet.load() && o.subRet.load() < n.call && o.unsubCall.load() > n.ret) need = std::max(need, 1 + o.key.size()); }
-                if (n.result < need || n.result > 3) return fail("wrong-depth", "depth", "depth() = " + std::to_string(n.result) + " while a live subscription needs at least " + std::to_string(need));
+                if (n.result < need || n.result > (uint64_t) gMaxDepth + 1) return fail("wrong-depth", "depth", "depth() = " + std::to_string(n.result) + " while a live subscription needs at least " + std::to_string(need));
                 continue;
             }
             if (n.kind != ONotify) continue;
@@ -184,13 +188,16 @@ void judge(std::vector<std::vector<Op>> &logs) {
 void runCase(uint64_t c, rt::Rng rng) {
     int nT = (int) std::vector<int>{4, 4, 6, 8, 12, 16}[rng.below(6)];
     int opsPerThread = (int) rng.range(40, 140);
+    bool churn = rng.chance(350);
+    gNameCount = churn ? 6 : 2;
+    gMaxDepth = churn ? 3 : 2;
     int cpus = rng.chance(250) ? 2 : rng.chance(250) ? 4 : 0;
     spy::Delays d;
     int profile = (int) rng.below(3);
     if (profile == 1) { d.afterWake = 200; d.maxUs = 100; }
     else if (profile == 2) { d.afterWake = 100; d.condEntry = 80; d.beforeLock = 40; d.afterUnlock = 60; d.beforeNotify = 80; d.maxUs = 60; }
     char desc[160];
-    snprintf(desc, sizeof desc, "history case %" PRIu64 ": threads=%d ops/thread=%d cpus=%d delayProfile=%d", c, nT, opsPerThread, cpus, profile);
+    snprintf(desc, sizeof desc, "history case %" PRIu64 ": threads=%d ops/thread=%d cpus=%d delayProfile=%d names=%zu depth<=%d", c, nT, opsPerThread, cpus, profile, gNameCount, gMaxDepth);
     gDesc = desc;
     rt::crumb("%s", desc);
     C.maxThreads = std::max<uint64_t>(C.maxThreads, (uint64_t) nT);
@@ -219,8 +226,8 @@ void runCase(uint64_t c, rt::Rng rng) {
             auto &log = logs[(size_t) t];
             auto randomPattern = [&](bool concreteOnly) {
                 std::vector<int> p;
-                int depth = (int) r.range(1, 2);
-                for (int i = 0; i < depth; ++i) p.push_back(!concreteOnly && r.chance(400) ? -1 : (int) r.below(kNames.size()));
+                int depth = (int) r.range(1, gMaxDepth);
+                for (int i = 0; i < depth; ++i) p.push_back(!concreteOnly && r.chance(400) ? -1 : (int) r.below(gNameCount));
                 return p;
             };
             auto unsubscribe = [&](size_t idx) {
@@ -237,6 +244,7 @@ void runCase(uint64_t c, rt::Rng rng) {
             while (!go.load(std::memory_order_acquire)) sched_yield();
             for (int k = 0; k < opsPerThread; ++k) {
                 unsigned q = (unsigned) r.below(100);
+                if (churn && q >= 62 && q < 80 && r.chance(400)) q = 90;   // churn histories: fewer unsubscribes, more exists/depth probes
                 if (q < 38) {
                     log.push_back(Op{ONotify, randomPattern(false)});
                     Op &o = log.back();
@@ -404,6 +412,8 @@ struct LinChecker {
 };
 
 void runLinCase(uint64_t c, rt::Rng rng) {
+    gNameCount = 2;
+    gMaxDepth = 2;
     int nT = (int) rng.range(2, 4);
     int opsPerThread = (int) rng.range(2, nT == 4 ? 3 : 4);
     spy::Delays d;
@@ -432,7 +442,7 @@ void runLinCase(uint64_t c, rt::Rng rng) {
         ObsRec &rec = *gObs[(size_t) id];
         std::vector<int> p;
         int depth = (int) r.range(1, 2);
-        for (int i = 0; i < depth; ++i) p.push_back((int) r.below(kNames.size()));
+        for (int i = 0; i < depth; ++i) p.push_back((int) r.below(gNameCount));
         for (int l : p) rec.key.push_back(kNames[(size_t) l]);
         log.push_back(Op{OSubscribe, p, id});
         Op &o = log.back();
@@ -466,7 +476,7 @@ void runLinCase(uint64_t c, rt::Rng rng) {
             auto pattern = [&](bool wild) {
                 std::vector<int> p;
                 int depth = (int) r.range(1, 2);
-                for (int i = 0; i < depth; ++i) p.push_back(wild && r.chance(450) ? -1 : (int) r.below(kNames.size()));
+                for (int i = 0; i < depth; ++i) p.push_back(wild && r.chance(450) ? -1 : (int) r.below(gNameCount));
                 return p;
             };
             while (!go.load(std::memory_order_acquire)) sched_yield();
@@ -553,6 +563,105 @@ void runLinCase(uint64_t c, rt::Rng rng) {
     if (!gCaseFailed) { pre.clear(); delete router; }
 }
 
+// ------------------------------------------------------------------ fast churn with exactly known answers
+// Threads own disjoint parts of the key space, so every result is known although the tree is restructured
+// at full speed: a persistent subscription at /f/a (subscribed before the threads start) must always exist,
+// always be reached exactly once by notify(/f/a) and by the two-level wildcard, and depth() must cover it;
+// each writer subscribes below its own first-level name, must reach exactly its own observer there, then
+// unsubscribes and shrinks. No callback sleeps: this is the high-rate complement of the stamped histories.
+void runFastCase(uint64_t c, rt::Rng rng) {
+    gNameCount = 6;
+    gMaxDepth = 3;
+    int writers = (int) rng.range(2, 4), readers = (int) rng.range(2, 5);
+    int iters = (int) rt::optInt("fastiters", 1500);
+    spy::Delays d;
+    int profile = (int) rng.below(3);
+    if (profile == 1) { d.afterWake = 100; d.maxUs = 30; }
+    else if (profile == 2) { d.beforeLock = 40; d.afterUnlock = 40; d.maxUs = 20; }
+    char desc[160];
+    snprintf(desc, sizeof desc, "fast churn case %" PRIu64 ": writers=%d readers=%d iterations=%d delayProfile=%d", c, writers, readers, iters, profile);
+    gDesc = desc;
+    rt::crumb("%s", desc);
+    auto *router = new ConcurrentSubjectRouter();
+    spy::unwatchAll();
+    spy::watch(router, sizeof(ConcurrentSubjectRouter));
+    spy::configure(d, rt::mix(rt::st().seed, c));
+    if (!profile) spy::disableDelays();
+    gObs.clear();
+    std::atomic<int> go{0};
+    std::atomic<uint64_t> bad{0}, ops{0};
+    std::string firstBad;
+    std::mutex badM;
+    auto report = [&](const std::string &what) {
+        if (bad.fetch_add(1) == 0) { std::lock_guard l{badM}; firstBad = what; }
+    };
+    const std::vector<int> P = {5, 0};                      // /f/a
+    auto cb = [](int id) { return [id]() { if (Op *n = tlsNotify) n->cbs.push_back(CbRec{id, 0, 0}); }; };
+    USubscription persistent = router->subscribe(build(P), cb(0));
+    std::vector<std::thread> th;
+    for (int w = 0; w < writers; ++w)
+        th.emplace_back([&, w, seed = rng.next()] {
+            rt::Rng r(seed);
+            while (!go.load(std::memory_order_acquire)) sched_yield();
+            for (int k = 0; k < iters && !bad.load(std::memory_order_relaxed); ++k) {
+                std::vector<int> key = {w, (int) r.below(2), (int) r.below(2)};
+                if (r.chance(300)) key.pop_back();
+                int id = 100 + w;
+                USubscription sub = router->subscribe(build(key), cb(id));
+                Op o{ONotify, key};
+                tlsNotify = &o;
+                size_t ret = router->notify(build(key));
+                tlsNotify = nullptr;
+                if (ret != 1 || o.cbs.size() != 1 || o.cbs[0].obs != id) report("writer " + std::to_string(w) + ": notify of its own key " + patStr(key) + " returned " + std::to_string(ret) + " and reached " + std::to_string(o.cbs.size()) + " observer(s)");
+                if (!router->exists(build(key))) report("writer: exists(" + patStr(key) + ") false while subscribed");
+                sub->unsubscribe();
+                unsigned q = (unsigned) r.below(4);
+                if (q == 0) router->shrink(build({w, -1, -1}));
+                else if (q == 1) router->shrink(build({-1, -1, -1}));
+                else if (q == 2) router->shrink(build(key));
+                ops.fetch_add(5, std::memory_order_relaxed);
+            }
+        });
+    for (int rd = 0; rd < readers; ++rd)
+        th.emplace_back([&, seed = rng.next()] {
+            rt::Rng r(seed);
+            while (!go.load(std::memory_order_acquire)) sched_yield();
+            for (int k = 0; k < iters * 2 && !bad.load(std::memory_order_relaxed); ++k) {
+                unsigned q = (unsigned) r.below(5);
+                if (q == 0) { if (!router->exists(build(P))) report("exists(/f/a) false although its subscription is never removed"); }
+                else if (q == 1) { if (!router->exists(build({5})) || !router->exists(build({-1, 0}))) report("exists(/f) or exists(/*/a) false although /f/a is stored"); }
+                else if (q == 2) { size_t dp = router->depth(); if (dp < 3 || dp > 4) report("depth() = " + std::to_string(dp) + " with /f/a stored and keys of at most 3 levels"); }
+                else {
+                    std::vector<int> pat = q == 3 ? P : std::vector<int>{-1, -1};
+                    Op o{ONotify, pat};
+                    o.cbs.reserve(8);
+                    tlsNotify = &o;
+                    size_t ret = router->notify(build(pat));
+                    tlsNotify = nullptr;
+                    int mine = 0;
+                    for (auto &x : o.cbs) if (x.obs == 0) ++mine;
+                    if (mine != 1 || ret < 1 || (q == 3 && (ret != 1 || o.cbs.size() != 1)))
+                        report("notify " + patStr(pat) + " returned " + std::to_string(ret) + " and reached the persistent observer " + std::to_string(mine) + " time(s) (" + std::to_string(o.cbs.size()) + " callbacks)");
+                }
+                ops.fetch_add(1, std::memory_order_relaxed);
+            }
+        });
+    go.store(1, std::memory_order_release);
+    for (auto &x : th) x.join();
+    spy::disableDelays();
+    C.fastCases++;
+    C.fastOps += ops.load();
+    if (bad.load()) fail("wrong-result-under-concurrency", "fast-churn", firstBad + " (" + std::to_string(bad.load()) + " wrong results)");
+    else {
+        rt::Hash h;
+        h.add(c); h.add((uint64_t) writers); h.add((uint64_t) readers);
+        C.fps.push_back(h.get());
+        ++C.nontrivialCases;
+    }
+    ++C.histories;
+    if (!gCaseFailed) { persistent->unsubscribe(); delete router; }
+}
+
 void onDeadlock(const std::string &desc) {
     rt::violation("C11", "quiescent-deadlock", "router", gDesc + ": every thread is blocked inside the router and nothing can wake it: " + desc);
 }
@@ -567,6 +676,7 @@ int main(int argc, char **argv) {
         rt::setCase(c);
         gCaseFailed = false;
         if (rt::optStr("mode", "stress") == "lin") runLinCase(c, rt::Rng(rt::mix(rt::st().seed, c)));
+        else if (rt::optStr("mode", "stress") == "fast") runFastCase(c, rt::Rng(rt::mix(rt::st().seed, c)));
         else runCase(c, rt::Rng(rt::mix(rt::st().seed, c)));
         spy::recycle();
     }
@@ -577,7 +687,7 @@ int main(int argc, char **argv) {
                    .kv("callbacks", C.callbacks).kv("subscribes", C.subscribes).kv("unsubscribes", C.unsubscribes).kv("shrinks", C.shrinks).kv("existsCalls", C.existsCalls)
                    .kv("depthCalls", C.depthCalls).kv("writesOverlappingNotify", C.writesOverlappingNotify).kv("snapshotsJudged", C.snapshotsJudged)
                    .kv("snapshotsWithConcurrentWrite", C.snapshotsWithConcurrentWrite).kv("missedObserversJudged", C.missedJudged).kv("maxThreads", C.maxThreads)
-                   .kv("linHistories", C.linHistories).kv("linOperations", C.linOps).kv("linSearchNodes", C.linNodes).kv("linInconclusive", C.linInconclusive).kv("linHistoriesWithOverlap", C.linWithOverlap).kv("nontrivialCases", C.nontrivialCases).kv("delaysInjected", k.afterWake.load() + k.condEntry.load() + k.beforeLock.load() + k.afterUnlock.load() + k.beforeNotify.load())
+                   .kv("fastChurnCases", C.fastCases).kv("fastChurnOperations", C.fastOps).kv("linHistories", C.linHistories).kv("linOperations", C.linOps).kv("linSearchNodes", C.linNodes).kv("linInconclusive", C.linInconclusive).kv("linHistoriesWithOverlap", C.linWithOverlap).kv("nontrivialCases", C.nontrivialCases).kv("delaysInjected", k.afterWake.load() + k.condEntry.load() + k.beforeLock.load() + k.afterUnlock.load() + k.beforeNotify.load())
                    .kv("lockParks", k.watchedCondWaits.load()).raw("samples", rt::jsonArray(C.samples, false)));
     return 0;
 }
